@@ -30,7 +30,10 @@ type decRec struct {
 	Tag   string `json:"tag"`
 }
 
-func decodeOnce(what string, data []byte) decOut {
+// The decoded value is rendered only after the input buffer has been overwritten (fill): a socket receiver decodes every
+// datagram from one reused buffer, so a value that keeps references into its input changes under the consumer's hands
+// with the next datagram - the three variants of a record are overwritten with different bytes.
+func decodeOnce(what string, data []byte, fill byte) decOut {
 	res := make(chan decOut, 1)
 	go func() {
 		var o decOut
@@ -38,6 +41,9 @@ func decodeOnce(what string, data []byte) decOut {
 			if what == "knxnet" {
 				var s knxnet.Service
 				n, err := knxnet.Unpack(data, &s)
+				for i := range data {
+					data[i] = fill + byte(i)
+				}
 				o.N = int(n)
 				if err == nil {
 					o.OK = 1
@@ -47,6 +53,9 @@ func decodeOnce(what string, data []byte) decOut {
 			} else {
 				var m cemi.Message
 				n, err := cemi.Unpack(data, &m)
+				for i := range data {
+					data[i] = fill + byte(i)
+				}
 				o.N = int(n)
 				if err == nil {
 					o.OK = 1
@@ -81,9 +90,9 @@ func logDecode(o *Out, what string, b []byte, longer []byte, tag string) bool {
 	copy(bufV, longer)
 	copy(bufV, b)
 	r := decRec{K: "dec", What: what, Len: len(b), B: Ints(b), Tag: tag}
-	r.Exact = decodeOnce(what, exact)
-	r.ExtA = decodeOnce(what, bufA[:len(b)])
-	r.ExtV = decodeOnce(what, bufV[:len(b)])
+	r.Exact = decodeOnce(what, exact, 0xee)
+	r.ExtA = decodeOnce(what, bufA[:len(b)], 0x11)
+	r.ExtV = decodeOnce(what, bufV[:len(b)], 0x77)
 	o.Rec(r)
 	return r.Exact.Hang+r.ExtA.Hang+r.ExtV.Hang == 0
 }
